@@ -36,6 +36,9 @@ type c03Plan struct {
 	ResumeMs int         `json:"resume_ms"`  // pause/stop: resume this long after the command returned; 0 = never
 	Stale    string      `json:"stale"`      // "" | entry | after-gate: a request parked there across the command (known-finding shapes)
 	RolloutStopped bool  `json:"rollout_stopped"` // `rollout stop` is issued after the flights started: rollout targets stay installed (and busy)
+	Sick     []int       `json:"sick,omitempty"`  // targets of the drained set whose probes start failing right after the flights started (they are out of rotation, still busy, when the command runs)
+	TargetTimeoutMs int  `json:"target_timeout_ms,omitempty"` // the service's target timeout (bounds the wait for response HEADERS only); 0 = far beyond the scenario. Flights are streams or upgrades then: their headers come at once.
+	Prior    []string    `json:"prior,omitempty"` // pause / stop / resume commands issued (idle service) before the scenario: the command under test is not the first of its kind
 }
 
 func c03Gen(t *rapid.T) c03Plan {
@@ -48,10 +51,20 @@ func c03Gen(t *rapid.T) c03Plan {
 	}
 	p.DrainMs = rapid.SampledFrom([]int{50, 200, 1000, 5000}).Draw(t, "drain")
 	p.CmdAtMs = rapid.SampledFrom([]int{0, 10, 100}).Draw(t, "cmd-at")
+	sick := rapid.IntRange(0, 4).Draw(t, "sick?") == 0
+	if sick {
+		p.CmdAtMs = 10100 // after the probe round at +10s has found the sick targets out
+	}
 	nf := rapid.IntRange(0, 5).Draw(t, "nflights")
 	deadline := p.CmdAtMs + p.DrainMs
+	if rapid.IntRange(0, 5).Draw(t, "target-timeout?") == 0 {
+		p.TargetTimeoutMs = rapid.SampledFrom([]int{5, 20, p.DrainMs / 2}).Draw(t, "target-timeout")
+	}
 	for i := 0; i < nf; i++ {
 		f := c03Flight{Kind: rapid.SampledFrom([]string{"plain", "plain", "plain", "upgrade", "sse"}).Draw(t, "kind")}
+		if p.TargetTimeoutMs > 0 && f.Kind == "plain" {
+			f.Kind = "sse"
+		}
 		f.DurMs = rapid.SampledFrom([]int{1, p.CmdAtMs, p.CmdAtMs + 1, deadline / 2, deadline - 1, deadline, deadline + 1, deadline * 3, 60000}).Draw(t, "dur")
 		f.DurMs = max(f.DurMs, 1)
 		f.Rollout = p.Rollout > 0 && rapid.IntRange(0, 2).Draw(t, "to-rollout") == 0
@@ -69,6 +82,24 @@ func c03Gen(t *rapid.T) c03Plan {
 	if rapid.IntRange(0, 9).Draw(t, "stale") == 0 {
 		p.Stale = rapid.SampledFrom([]string{"entry", "after-gate"}).Draw(t, "stale-at")
 	}
+	if sick {
+		n := p.Active
+		if p.Cmd == "rollout-redeploy" {
+			n = p.Rollout
+		}
+		for i := 0; i < n; i++ {
+			// pause and stop hand the same targets back at resume: one of them stays healthy
+			if (p.Cmd == "pause" || p.Cmd == "stop") && i == n-1 {
+				break
+			}
+			if rapid.Bool().Draw(t, "sick") {
+				p.Sick = append(p.Sick, i)
+			}
+		}
+	}
+	if rapid.IntRange(0, 3).Draw(t, "prior?") == 0 {
+		p.Prior = rapid.SampledFrom([][]string{{"pause", "resume"}, {"stop", "resume"}, {"pause", "stop", "resume"}, {"pause", "resume", "pause", "resume"}, {"stop", "pause", "resume"}}).Draw(t, "prior")
+	}
 	return p
 }
 
@@ -84,8 +115,12 @@ func c03RunMode(t *testing.T, p c03Plan, mode string) (res vfResult) {
 		opts.Normalize()
 		to := vfFastTargetOptions()
 		to.HealthCheckConfig.Interval = 10 * time.Second
-		w.noteInterval(10 * time.Second)
+		w.noteInterval(to.HealthCheckConfig.Interval)
 		to.ResponseTimeout = 10 * time.Minute // no target timeout inside the scenario's horizon
+		if p.TargetTimeoutMs > 0 {
+			to.ResponseTimeout = vfMs(p.TargetTimeoutMs)
+			res.label("target-timeout-shorter-than-drain-timeout")
+		}
 		mk := func(prefix string, n int) []string {
 			var out []string
 			for i := 0; i < n; i++ {
@@ -98,17 +133,32 @@ func c03RunMode(t *testing.T, p c03Plan, mode string) (res vfResult) {
 		oldA, oldR := mk("olda", p.Active), mk("oldr", p.Rollout)
 		newA, newR := mk("newa", p.Active), mk("newr", max(p.Rollout, 1))
 		big := 120 * time.Second
-		if err := r.DeployService("svc", oldA, opts, to, 5*time.Second, big); err != nil {
+		if err := vfDeploy(r, "svc", oldA, opts, to, 5*time.Second, big); err != nil {
 			res.failf("setup-failed", "deploy: %v", err)
 			return
 		}
 		if p.Rollout > 0 {
-			if err := r.SetRolloutTargets("svc", oldR, 5*time.Second, big); err != nil {
+			if err := vfRolloutDeploy(r, "svc", oldR, 5*time.Second, big); err != nil {
 				res.failf("setup-failed", "rollout deploy: %v", err)
 				return
 			}
-			if err := r.SetRolloutSplit("svc", 100, nil); err != nil {
+			if err := vfRolloutSet(r, "svc", 100, nil); err != nil {
 				res.failf("setup-failed", "rollout set: %v", err)
+				return
+			}
+		}
+		for _, c := range p.Prior {
+			var err error
+			switch c {
+			case "pause":
+				err = vfPause(r, "svc", time.Second, c03MaxPause)
+			case "stop":
+				err = vfStop(r, "svc", time.Second, "earlier stop")
+			case "resume":
+				err = vfResume(r, "svc")
+			}
+			if err != nil {
+				res.failf("setup-failed", "prior %s: %v", c, err)
 				return
 			}
 		}
@@ -201,9 +251,19 @@ func c03RunMode(t *testing.T, p c03Plan, mode string) (res vfResult) {
 			})
 		}
 		synctest.Wait()
+		if len(p.Sick) > 0 {
+			set := oldA
+			if p.Cmd == "rollout-redeploy" {
+				set = oldR
+			}
+			for _, i := range p.Sick {
+				w.targets[set[i]].setProbeScript(nil, vfProbeStep{Kind: "status", Status: 500})
+			}
+			res.label("busy-target-out-of-rotation-when-drained")
+		}
 		if p.RolloutStopped {
 			// the split ends, the rollout targets stay installed with whatever they are serving
-			if err := r.StopRollout("svc"); err != nil {
+			if err := vfRolloutStop(r, "svc"); err != nil {
 				res.failf("setup-failed", "rollout stop: %v", err)
 				return
 			}
@@ -218,13 +278,13 @@ func c03RunMode(t *testing.T, p c03Plan, mode string) (res vfResult) {
 		var cmd *vfPendingCmd
 		switch p.Cmd {
 		case "redeploy":
-			cmd = w.goCmd(func() error { return r.DeployService("svc", newA, opts, to, 5*time.Second, drain) })
+			cmd = w.goCmd(func() error { return vfDeploy(r, "svc", newA, opts, to, 5*time.Second, drain) })
 		case "rollout-redeploy":
-			cmd = w.goCmd(func() error { return r.SetRolloutTargets("svc", newR, 5*time.Second, drain) })
+			cmd = w.goCmd(func() error { return vfRolloutDeploy(r, "svc", newR, 5*time.Second, drain) })
 		case "pause":
-			cmd = w.goCmd(func() error { return r.PauseService("svc", drain, c03MaxPause) })
+			cmd = w.goCmd(func() error { return vfPause(r, "svc", drain, c03MaxPause) })
 		case "stop":
-			cmd = w.goCmd(func() error { return r.StopService("svc", drain, "closed for now") })
+			cmd = w.goCmd(func() error { return vfStop(r, "svc", drain, "closed for now") })
 		}
 		// late arrivals
 		type lateObs struct {
@@ -318,7 +378,7 @@ func c03RunMode(t *testing.T, p c03Plan, mode string) (res vfResult) {
 			time.Sleep(vfMs(p.ResumeMs))
 			synctest.Wait()
 			resumedAt = w.now()
-			if err := r.ResumeService("svc"); err != nil {
+			if err := vfResume(r, "svc"); err != nil {
 				res.failf("command-failed", "resume: %v", err)
 				return
 			}
@@ -455,6 +515,9 @@ func c03RunMode(t *testing.T, p c03Plan, mode string) (res vfResult) {
 		}
 		if p.Stale != "" {
 			res.label("stale-shape:" + p.Stale)
+		}
+		if len(p.Prior) > 0 {
+			res.label("not-the-first-pause-or-stop")
 		}
 		res.label("cmd:" + p.Cmd)
 		if mode == "C17" {
